@@ -400,6 +400,23 @@ func (t *hashTopo) requireTopology(r *rule) bool {
 		r.undecided(fname(t.fn)+" topology", c.pos(t.fn.Pos()), fmt.Sprintf("the goroutine topology is not the understood producer/jobs/workers/results/collector shape (channels=%d, wait groups=%d, workers=%d)", len(t.chans), len(t.wgs), len(t.workers)))
 		return false
 	}
+	// every function that sends on or receives from a data channel is the spawner or the body of a go statement: a send made in
+	// a function that a goroutine only calls (a callback, an `emit` closure handed to the work function) is not attributed to
+	// the goroutine that makes it, and the per-goroutine rules would judge the wrong function
+	spawned := map[*ssa.Function]bool{t.fn: true}
+	for _, g := range t.gos {
+		if g.callee != nil {
+			spawned[g.callee] = true
+		}
+	}
+	for _, ci := range []*chanInfo{t.jobs, t.results} {
+		for _, s := range append(append([]chanSite{}, ci.send...), ci.recv...) {
+			if !spawned[s.fn] {
+				r.undecided(fname(t.fn)+" topology", c.ipos(s.instr), "the channel operation is made in "+fname(s.fn)+", which no go statement of the hasher starts (it is called from a goroutine through a function value): the goroutine topology is not the understood shape")
+				return false
+			}
+		}
+	}
 	return true
 }
 
